@@ -8,6 +8,7 @@ CONSTANTS
   Backup = "any"
   Scenes <- Disp
   DispWrite = "own"
+  MatTable = "own"
 INVARIANT TypeOK
 INVARIANT DispOutsideUnchanged
 INVARIANT DispCells
